@@ -595,6 +595,73 @@ def fd_order(res):
         raise AnalysisError(f"{FD}: no differencing dispatcher (three or more calls of one routine with pairs of input pointers) found")
 
 
+def skipfactor(res):
+    """R-SKIPFACTOR: mj_stepSkip lets an integrator reuse its factorisation (`skipfactor`) when `skipstage >= S`.  The finite-
+    difference passes perturb qvel with skipstage = mjSTAGE_POS and ctrl/forces with mjSTAGE_VEL, so a factor that is built
+    from velocity-dependent quantities may only be reused from mjSTAGE_VEL on.  Which integrators build such a factor is read
+    off the code: the statements an integrator executes only when skipfactor is false (canonical view), with the read sets of
+    the functions they call; if they read d->qvel, S must be at least mjSTAGE_VEL."""
+    from .. import norm
+    ufd = engine.unit(FD)
+    uf = engine.unit("src/engine/engine_forward.c")
+    st = norm.canon(ufd, "mj_stepSkip", nested=False)
+    if st is None:
+        raise AnalysisError("mj_stepSkip not found")
+    stage_val = dict(ctypeinfo.enum_values("mjtStage"))
+    g = callgraph.build(reads=True)
+    res.rule("R-SKIPFACTOR", "an integrator's factorisation is reused by the FD stepper only from the stage on after which its "
+             "inputs are unchanged", floor=2)
+    pstage = [p.get("n") for p in cir.params(st) if (p.get("t") or "") == "int"]
+    n = 0
+    for c in cir.calls(st):
+        name = cir.callee(c)
+        fn = uf.funcs.get(name)
+        if fn is None or len(cir.args(c)) != 3:
+            continue
+        a = cir.strip(cir.args(c)[2])
+        if a is None or a.get("k") != "BinaryOperator" or a.get("op") not in (">=", ">") or cir.text(cir.kids(a)[0]) not in pstage:
+            continue
+        thr = stage_val.get(cir.text(cir.kids(a)[1]))
+        if thr is None:
+            raise AnalysisError(f"mj_stepSkip: threshold `{cir.text(a)}` of {name} is not a stage enumerator")
+        if a.get("op") == ">":
+            thr += 1
+        n += 1
+        view = norm.canon(uf, name, exclude=("mj_advance",))
+        body = cir.body(view)
+        sp = [p.get("n") for p in cir.params(view) if (p.get("t") or "") == "int"]
+        if len(sp) != 1:
+            raise AnalysisError(f"{name}: skipfactor parameter not identified")
+        reads = set()
+        nreg = 0
+        for x in cir.walk(body):
+            gs = [(cir.text(c_), p_) for c_, p_ in (norm.guards(body, x) or [])]
+            if (sp[0], False) not in gs:
+                continue
+            nreg += 1
+            if x.get("k") == "MemberExpr" and x.get("arrow") and "mjData" in ((cir.strip(cir.kids(x)[0]) or {}).get("t") or ""):
+                reads.add(x.get("n"))
+            if cir.is_call(x):
+                k_ = g.resolve(uf.tu, cir.callee(x)) if cir.callee(x) else None
+                if k_ is not None:
+                    from .. import r_fresh
+                    reads |= set(r_fresh.summary(g, k_)[0])
+        if nreg == 0:
+            raise AnalysisError(f"{name}: no statement guarded by !{sp[0]} found")
+        need = stage_val["mjSTAGE_VEL"] if "qvel" in reads else stage_val["mjSTAGE_POS"]
+        key = f"mj_stepSkip:{name}"
+        if thr >= need:
+            res.ok("R-SKIPFACTOR", key, {"threshold": cir.text(cir.kids(a)[1]), "factor_reads_qvel": "qvel" in reads})
+        else:
+            res.bad("R-SKIPFACTOR", key, FD, c.get("line"),
+                    f"mj_stepSkip lets {name} reuse its factorisation for `{cir.text(a)}`, but what {name} builds when it does not "
+                    f"reuse it reads d->qvel: in the velocity-perturbation pass of the FD routines (skipstage = mjSTAGE_POS) the "
+                    f"nudged steps use the factor of the unperturbed velocity, so the velocity columns of A differ from direct "
+                    f"perturbation of mj_step")
+    if n < 2:
+        raise AnalysisError(f"mj_stepSkip: only {n} integrator calls with a `skipstage >= S` argument found")
+
+
 def run(res, tier):
     g = callgraph.build()
     res.rule("R-SAVE-RESTORE", "FD routines undo every perturbation of their input on all paths", floor=9)
@@ -602,6 +669,7 @@ def run(res, tier):
     res.rule("R-SIBLING-ENUM", "velocity-dependent gain/bias types of mj_fwdActuation are handled by mjd_actuator_vel", floor=6)
     sibling_enum(res)
     fd_order(res)
+    skipfactor(res)
     res.explanation = (
         "All-paths typestate (dirty input components, saved scalars/buffers/state vectors) over the mjd_* routines of "
         "engine_derivative_fd.c with the state components taken from the mjtState tables and the effect of stepping "
